@@ -167,6 +167,8 @@ func runCheck(id, tier, repo, verif string, seed int, writeEv bool) int {
 	obligations, discharged := 0, 0
 	covers, coversOK := 0, 0
 	ignored := 0
+	var deadReturns []string
+	deadByFunc, retsByFunc := map[string]int{}, map[string]int{}
 	carrying := 0
 	samples := []any{}
 	kinds := map[string]int{}
@@ -180,9 +182,17 @@ func runCheck(id, tier, repo, verif string, seed int, writeEv bool) int {
 			covers++
 			if r.Status == "cover-ok" {
 				coversOK++
+			} else if strings.Contains(r.Name, "/cover:ret#") {
+				// a return that cannot be reached under the contracts (dead code); a function none
+				// of whose returns is reachable is caught below
+				deadReturns = append(deadReturns, r.Name)
+				deadByFunc[r.Func]++
 			} else {
 				fmt.Printf("MACHINERY-ERROR: vacuous cover %s (contradictory requires/invariant?)\n", r.Name)
 				violations = -1000
+			}
+			if strings.Contains(r.Name, "/cover:ret#") {
+				retsByFunc[r.Func]++
 			}
 			continue
 		}
@@ -222,6 +232,12 @@ func runCheck(id, tier, repo, verif string, seed int, writeEv bool) int {
 			continue
 		}
 		failed = append(failed, r)
+	}
+	for f, n := range deadByFunc {
+		if n == retsByFunc[f] {
+			fmt.Printf("MACHINERY-ERROR: no return of %s is reachable under its contract (vacuous)\n", f)
+			violations = -1000
+		}
 	}
 	if violations < 0 {
 		return 3
@@ -347,6 +363,7 @@ func runCheck(id, tier, repo, verif string, seed int, writeEv bool) int {
 			"property_carrying":        carrying,
 			"covers":                   covers,
 			"covers_satisfiable":       coversOK,
+			"unreachable_returns":      deadReturns,
 			"solver_time_s":            float64(res.SolverMs) / 1000,
 			"paths":                    res.Paths,
 			"known_findings":           known,
